@@ -149,6 +149,7 @@ func genC39(r *rand.Rand, tier string, i int) input39 {
 		in.Prof = "opaque"
 	}
 	add := func(s step39) { in.Ops = append(in.Ops, s) }
+	flagsMulti := false
 	nfw := 0 // forwards expected so far (approximation: hs 12 writes after start_delta)
 	countFw := func(s step39) {
 		for _, c := range s.Cmds {
@@ -240,6 +241,37 @@ func genC39(r *rand.Rand, tier string, i int) input39 {
 	if vh.Chance(r, 0.6) {
 		add(g.srcBatch(1+r.IntN(2), false)) // after the fence: hs 12 writes are answered hash_slot_fenced
 	}
+	pMulti := 0.15
+	if g.opaque {
+		pMulti = 0.6
+	}
+	if vh.Chance(r, pMulti) {
+		// behind the fence: multi-hash-slot commands whose items span the fenced hash slot 12 and the
+		// unfenced hash slot 11, routed by either; every one must be answered hash_slot_fenced
+		st := step39{K: "src"}
+		for k := 1 + r.IntN(2); k > 0; k-- {
+			a, b := g.latestItem(), g.latestItem()
+			a.HS, b.HS = u16p(hsA), u16p(hsB)
+			items := []cmdJ{a, b}
+			env := uint16(hsA)
+			if vh.Chance(r, 0.4) {
+				items = []cmdJ{b, a}
+				env = hsB
+			}
+			if vh.Chance(r, 0.3) {
+				c := g.latestItem()
+				c.HS = u16p(hsA)
+				items = append(items, c)
+			}
+			st.Cmds = append(st.Cmds, cmdJ{K: "latest_batch", HS: u16p(env), Items: items})
+			if vh.Chance(r, 0.4) {
+				st.Cmds = append(st.Cmds, g.write(hsA))
+			}
+		}
+		add(st)
+		flagsMulti = true
+	}
+	_ = flagsMulti
 	if vh.Chance(r, 0.3) {
 		add(step39{K: "replay"})
 	}
@@ -367,7 +399,7 @@ func runC39(in input39) vh.Result {
 				sid++
 			}
 			mc = append(mc, multiraft.Command{SlotID: sid, HashSlot: c.hs(), Index: *idx, Term: 1, Data: data})
-			ents = append(ents, vh.App("Entry", vh.B(!c.BadSlot), vh.N(uint64(c.hs())), c.coq(), vh.Hex(data), "None", "None"))
+			ents = append(ents, vh.App("Entry", vh.B(!c.BadSlot), vh.N(uint64(c.hs())), c.coq(), vh.Hex(data), "None", c.coqChan()))
 		}
 		return w.applyObs(mc), ents
 	}
@@ -428,9 +460,12 @@ func runC39(in input39) vh.Result {
 			b, ents := applyCmds(src, st.Cmds, &srcIdx, srcSlot)
 			so.Batch, so.Forwards = &b, batchFw
 			coq = vh.App("SSrc", vh.List(ents), b.coq(), vh.NList(batchFw))
-			for _, r := range b.Res {
+			for i, r := range b.Res {
 				if r.Cls == 2 {
 					flags["fenced"] = true
+					if i < len(st.Cmds) && st.Cmds[i].K == "latest_batch" {
+						flags["multi_fenced"] = true
+					}
 				}
 			}
 			if b.Fatal != 0 {
